@@ -369,6 +369,27 @@ def run_variant(case):
     return obs, tree
 
 
+def decl_model_input(c, tree):
+    """the project of a declared-name case as the declaration model sees it: all_structs (serde structs and enums with the
+    Rust types of their fields; a type alias is not entered) and the Rust types at the command / event sites"""
+    STR, I64 = ["p", "String", []], ["p", "i64", []]
+    structs = []
+    kind = c["decl"][0]
+    if kind == "struct":
+        structs.append(["Timestamp", [I64]])
+    elif kind == "enum":
+        structs.append(["Timestamp", []])
+    route = c["route"]
+    if route in ("field", "field_nested"):
+        structs.append(["Holder", [tree]])
+        sites = [["p", "Holder", []], STR]
+    elif route in ("return", "return_err", "event_let"):
+        sites = [tree]
+    else:
+        sites = [tree, STR]
+    return structs, sites
+
+
 def evaluate_variants(cases, stream):
     results = vlib.pmap(run_variant, cases)
     sexps = []
@@ -376,8 +397,22 @@ def evaluate_variants(cases, stream):
         sexps.append(sx([T.sx_ty(tree), [[k, v] for k, v in sorted(c["table"].items())],
                          [obs["with_table"] or "" for _ in range(10)], [obs["without_table"] or "" for _ in range(10)]]))
     res = vlib.run_runner("c18-emit", sexps)
+    # declaration model (Model/C18Decl.v): which project types types.ts exports under the table, the clause on the
+    # implementation's declarations, the class C18-4 - for the cases whose project declares the mapped name
+    dcases = [(i, c, tree) for i, (c, (obs, tree)) in enumerate(zip(cases, results)) if c.get("decl") and obs["exit"] == 0]
+    dsx = []
+    for i, c, tree in dcases:
+        structs, sites_rty = decl_model_input(c, tree)
+        cand = set()
+        for nm in ["Timestamp", "Holder"]:
+            cand |= {nm, nm + "Schema"}
+        results[i][0]["declared_project_types"] = sorted(x for x in results[i][0]["declared_with_table"] if x in cand)
+        dsx.append(sx(["true" if c["mode"] == "zod" else "false", [[k, v] for k, v in sorted(c["table"].items())],
+                       [[nm, [T.sx_ty(f) for f in fs]] for nm, fs in structs], [T.sx_ty(t) for t in sites_rty],
+                       results[i][0]["declared_with_table"]]))
+    dres = dict(zip([i for i, _, _ in dcases], vlib.run_runner("c18-declared", dsx))) if dsx else {}
     outs = []
-    for c, (obs, tree), r in zip(cases, results, res):
+    for ci, (c, (obs, tree), r) in enumerate(zip(cases, results, res)):
         idx = ["none", "zod"].index(c["mode"]) * 5 + SITES.index(obs["site"])
         model_text, ok, _abs, _cl = r[3][idx]
         obs["model_with_table"] = model_text
@@ -392,9 +427,14 @@ def evaluate_variants(cases, stream):
         kf = None
         corr = obs["with_table"] == model_text
         if c.get("decl"):
-            # HEAD: the mapping wins at every site; a mapped project struct / enum is nevertheless still declared (C18-4)
-            corr = corr and declared == (c["decl"][0] in ("struct", "enum"))
-            if c["decl"][0] in ("struct", "enum"):
+            # HEAD: the mapping wins at every site; a mapped project struct / enum is nevertheless still declared (C18-4).
+            # correspondence: the set of project types the implementation exports = the declaration model's set
+            model_names, clause_ok, in_class = dres[ci]
+            obs["model_declared_project_types"] = sorted(model_names)
+            obs["decl_clause_on_observed"] = clause_ok
+            corr = corr and obs["declared_project_types"] == sorted(model_names)
+            corr = corr and declared == (c["decl"][0] in ("struct", "enum")) and (clause_ok == "true") == (not declared)
+            if in_class == "true":
                 kf = "C18-4"
         okb = site_ok and not declared
         outs.append(Outcome(dict(c, what=stream), corr, okb, kf=kf, detail=obs))
